@@ -39,7 +39,7 @@ def main():
         elif d.startswith("/tmp/seed"):
             seedroot = os.path.dirname(os.path.dirname(d))
         # placeholders some authors use for "the checkout": treat them as the seed worktree
-        for ph in ("<worktree>", "<repo>", "<REPO>", "$REPO", "<root>", "<module root>", "<checkout>"):
+        for ph in ("<repo root>", "<worktree>", "<repo>", "<REPO>", "$REPO", "<root>", "<module root>", "<checkout>"):
             run = run.replace(ph, seedroot)
         # destination of the demo file: a full path under the seed worktree named in RUN.txt
         gofiles = [f for f in os.listdir(d) if f.endswith(".go")]
